@@ -400,6 +400,20 @@ class C20(HttpProp):
             for _ in range(rng.randint(10, 60)):
                 ops += g.op()
             out.append(Case(f"c20-h{k}", ops, mode="http"))
+        # responses produced when a storage call fails (500s), on every endpoint
+        reqs = ["http POST av hyph=latest:1 hyph=1 history b:6", "http POST av hyph=nil hyph=fresh history b:6",
+                "http GET gcv hyph=nil hyph=1 absent e", "http POST as hyph=latest:1 hyph=1 snapshot b:8", "http GET snap - hyph=1 absent e"]
+        for j, rq in enumerate(reqs):
+            ops = state_prefix(random.Random(rng.getrandbits(32)), (1,))
+            for idx in range(0, 9):
+                ops += [f"fault {idx}:{'before' if idx % 2 == 0 else 'after'}", rq]
+            out.append(Case(f"c20-f{j}", ops, mode="http"))
+        # declared lengths around and above the limit
+        for j, n in enumerate((MAX + 1,) if tier != "thorough" else (MAX, MAX + 1, 2 * MAX)):
+            ops = ["http POST av hyph=nil hyph=1 history b:1", f"http POST av hyph=latest:1 hyph=1 history big:{n}:1",
+                   f"http POST as hyph=latest:1 hyph=1 snapshot big:{n}:1", f"http POST av hyph=latest:1 hyph=1 other big:{n}:1",
+                   f"http GET gcv hyph=nil hyph=1 absent big:{n}:1"]
+            out.append(Case(f"c20-big{j}", ops, mode="http"))
         return out
     def relevant(self, i, trace):
         o, ri, rm = trace[i]
